@@ -32,6 +32,7 @@ HOSTED = "<4sIIQQQQIQQQB4sH433s"
 GD_AT_END = 0xFFFFFFFFFFFFFFFF
 CDATA = "C"  # data grain with compressible content (pattern layer 0x8000 | layer)
 FALL = "F"  # SE-sparse fall-through entry: reads like a hole
+STALE = "S"  # SE-sparse unallocated entry (top nibble 0) whose lower bits still hold a stale value: reads like a hole
 PLACED = (DATA, CDATA)
 
 
@@ -290,6 +291,8 @@ def build_sesparse(states, slots, grain=8, gt_sectors=64, capacity=None, window_
             e = 0x2000000000000000
         elif st == FALL:
             e = 0x1000000000000000
+        elif st == STALE:
+            e = (0x0004000000000002, 0x0000000000000007, 0x0FFF00000000FFFF)[g % 3]
         else:
             c = cluster_base + p
             e = se_entry(c)
@@ -346,6 +349,8 @@ def model(states, grain, capacity=None, window_at=0, total_grains=None, layer=1,
                 layers[g] = layer_of(st, layer)
         elif st == ZERO:
             units[g] = ZERO
+        elif st == STALE:
+            units[g] = HOLE
         else:
             units[g] = HOLE
     size = (capacity if capacity is not None else total * grain) * S
